@@ -221,7 +221,7 @@ def stepOp (ee : EE) (fuel : Nat) (d : DrvState) (op : Json) : Except String Drv
       | some s' => pure (recordCall d op .null [] s')
       | none => pure (recordCall d op .null [] d.s (some "ValueError"))
   -- actions on ANOTHER scheduler of the same process: no effect on this one
-  | "wstart" | "wfinish" => pure (recordCall d op .null [] d.s)
+  | "wstart" | "wfinish" | "revar" => pure (recordCall d op .null [] d.s)
   | _ => jerr s!"op {name}"
 
 def runSched (j : Json) : Except String Json := do
